@@ -49,13 +49,19 @@ def equations(year):
           cite="Form 1040 instructions, lines 4a and 4b (IRA distributions): a fully taxable distribution goes on line 4b (4a blank); with exception 1 (rollover), "
                "2 (Form 8606) or 3 (qualified charitable distribution) the total goes on line 4a and the taxable part (Form 8606 for exception 2) on line 4b -- "
                "so 4a + 4b is the total of box 1 of every Form 1099-R with the IRA/SEP/SIMPLE box checked (you AND spouse) plus the Form 8606 taxable amounts"),
+        E("1040", "25c", "addopt", ["8959.24", "in:other_federal_withholding"], need="in:other_federal_withholding",
+          cite="25c. Other forms: Form 8959 line 24 (Additional Medicare Tax withholding) plus the other federal income tax withheld the filer reports (Form 1040 instructions, line 25c)"),
+        E("1040", "26", "same", ["in:estimated_tax_payments"], cite="26. %d estimated tax payments and amount applied from the previous return" % year),
         E("1040", "35a", "sub", ["36", "34"], cite="35a. Amount of line 34 you want refunded to you (line 34 minus line 36)"),
         E("8995", "6", "addinst", terms=[("1099-div", "box_5")], cite="Form 8995 line 6: qualified REIT dividends (section 199A dividends, Form 1099-DIV box 5)"),
         E("8995", "11", "subx", ["1040.12", "1040.11"] if year != 2021 else ["1040.12c", "1040.11"], cite="Form 8995 line 11: taxable income before the qualified business income deduction (Form 1040 line 11 minus line 12)"),
         E("8995", "12", "add", ["1040.3a", "1040.7"], cite="Form 8995 line 12: net capital gain: qualified dividends plus capital gain (Form 1040 lines 3a and 7)"),
         E("8959", "1", "addinst", terms=[("w-2", "box_5")], cite="Form 8959 line 1: Medicare wages and tips from Form W-2, box 5 (total of all W-2s)"),
         E("8959", "19", "addinst", terms=[("w-2", "box_6")], cite="Form 8959 line 19: Medicare tax withheld from Form W-2, box 6 (total of all W-2s)"),
-    ] + ([E("1040_recovery_rebate_credit_wkst", "6", "rrc6", ["2", "3", "4", "5"],
+    ] + ([] if year == 2021 else [     # (2021: pensions are a declared, not-supported situation -- the return says so itself, C09)
+        E("1040", "5a", "pens5", box="box_1", cite="5a. Pensions and annuities: the total of box 1 of the Forms 1099-R that are not IRA distributions (Form 1040 instructions, lines 5a and 5b)"),
+        E("1040", "5b", "pens5", box="box_2a", cite="5b. Taxable amount: box 2a of those Forms 1099-R (Form 1040 instructions, lines 5a and 5b: fully taxable / taxable amount determined by the payer)"),
+    ]) + ([E("1040_recovery_rebate_credit_wkst", "6", "rrc6", ["2", "3", "4", "5"],
             cite="2021 Recovery Rebate Credit Worksheet (Form 1040 instructions, line 30), line 6: $1,400 ($2,800 if married filing jointly and you answered Yes to question 2 or 3)")]
          if year == 2021 else []) + [
         E("1040_s3", "1", "addinst", terms=[("1099-int", "box_6"), ("1099-div", "box_7")],
